@@ -1081,7 +1081,7 @@ fn c14_check(kind: Kind, op: &Op, i: usize, out: &Out, before: &View, after: &Vi
                 kind,
                 op,
                 &format!("walk-{}", FAMILIES[*fam as usize]),
-                format!("step {i}: {}() over {:?} with pattern {:?} (true=next, false=next_back), then consumption path {} (arg {}): got {:?}, expected {:?}", FAMILIES[*fam as usize], before.lists[li], pat, FIN_NAMES[(*fin % N_FIN) as usize], *fin / N_FIN, got, exp),
+                format!("step {i}: {}() over {:?} with pattern {:?} (true=next, false=next_back), then consumption path {} (fin code {}): got {:?}, expected {:?}", FAMILIES[*fam as usize], before.lists[li], pat, fin_name(*fin), *fin, got, exp),
             ));
         }
         for (j, lj) in after.lists.iter().enumerate() {
